@@ -375,6 +375,25 @@ def gen_area(rng, tier_thorough, idx, force=None):
         hists.append(hist)
     spec["histories"] = hists
     spec["meta"]["hist_exact"] = h * w <= 64
+    # --- DERIVED objects: crops, strided slices and copies of an area that already holds lon/lats (cache=True or lons=/lats=)
+    if 4 <= h * w <= 900 and h >= 2 and w >= 2:
+        def gsl(n):
+            st = rng.choice([None, 1, 2, 2, 3])
+            a_ = rng.randint(0, max(0, n - 2))
+            b_ = rng.randint(min(n, a_ + (st or 1) + 1), n) if a_ + (st or 1) + 1 <= n else n
+            return [rng.choice([None, a_]) if a_ == 0 else a_, rng.choice([None, b_]) if b_ == n else b_, st]
+        scen = []
+        for _ in range(2):
+            chain = [["getitem", gsl(h), gsl(w)]]
+            j = rng.random()
+            if j < 0.25:
+                chain.append(["copy"])
+            elif j < 0.45:
+                chain = [["copy"]] + chain
+            elif j < 0.6:
+                chain += [["cache"], ["getitem", [None, None, rng.choice([None, 2])], [None, None, rng.choice([None, 2])]]]
+            scen.append({"prime": rng.choice(["cache", "cache", "ctor", "ctor", "none"]), "chain": chain})
+        spec["derived"] = scen
     # --- several lazy results in ONE dask.compute: this area and a twin with the same shape and (bitwise) the same pixel sizes
     #     but another origin (a neighbouring tile of the same grid); same chunks, same dtype
     if h * w <= 900:
@@ -783,6 +802,7 @@ class Eval:
         self.histories(A, xs, ys, ok)
         self.aliases()
         self.joint(A)
+        self.derived()
         ctx.case(("area", spec["crs"], tuple(bits(v) for v in spec["extent"]), h, w), nontrivial=nontriv,
                  sample=self.smp(0, {"area": {"crs": self.name, "extent": spec["extent"], "shape": [h, w], "mode": self.meta["mode"], "flip": self.meta["flip"]},
                          "impl_upper_left_pixel": at["pixel_upper_left"]}))
@@ -815,6 +835,104 @@ class Eval:
                     if (math.isfinite(a) and math.isfinite(b)) == fi:
                         return True
         return False
+
+    def derived(self):
+        """Objects derived (crop, strided slice, copy) from an area that already holds lon/lats: every accessor of the derived
+        object against ITS OWN canonical map (from the extent and shape it reports)."""
+        ctx, spec, obs = self.ctx, self.spec, self.obs
+        for sc, res in zip(spec.get("derived", []), obs.get("derived", [])):
+            strided = any(st[0] == "getitem" and ((st[1][2] or 1) > 1 or (st[2][2] or 1) > 1) for st in sc["chain"])
+            label = "prime_%s_%s" % (sc["prime"], "strided" if strided else "crop")
+            ctx.count("derived_" + label)
+            what0 = "area%s after %s" % ("".join("[%s, %s]" % (self.sl_str(st[1]), self.sl_str(st[2])) if st[0] == "getitem" else
+                                                 (".copy()" if st[0] == "copy" else "{get_lonlats(cache=True)}") for st in sc["chain"]),
+                                         {"cache": "get_lonlats(cache=True) on the parent", "ctor": "constructing the parent with lons=/lats=",
+                                          "none": "no lon/lats on the parent"}[sc["prime"]])
+            if "derive_error" in res:
+                ctx.count("derived_raised")          # a loud error is acceptable, a wrong value is not
+                continue
+            h, w = res["shape"]
+            ctx.case(("derived", spec["crs"], tuple(bits(v) for v in spec["extent"]), spec["h"], spec["w"], repr(sc)),
+                     nontrivial=sc["prime"] != "none" and strided,
+                     sample=self.smp(3, {"derived": {"parent_extent": spec["extent"], "parent_shape": [spec["h"], spec["w"]], "prime": sc["prime"],
+                                                     "chain": sc["chain"]}, "impl_extent": res["extent"], "impl_shape": res["shape"]}))
+            if h < 1 or w < 1:
+                continue
+            dspec = dict(spec, extent=res["extent"], h=h, w=w, meta=self.meta)
+            sub = Eval(ctx, dspec, {}, {k: [] for k in list(CHK) + ["coords32", "history_imp"]})
+            o = sub.o
+            cx = np.array([float(o.X(c)) for c in range(w)])
+            cy = np.array([float(o.Y(r)) for r in range(h)])
+            CX, CY = np.meshgrid(cx, cy)
+            RLON, RLAT = self.R.transform(CX, CY, direction=INV)
+            dg = self.cls == "derived_geographic"
+
+            def fail(acc, msg, proj_family=False):
+                key = "C01.lonlat.derived_geographic_crs" if (dg and acc != "get_proj_coords") else "C01.derived." + acc
+                self.fail(key, "%s (its extent %r, shape (%d,%d)): %s" % (what0, res["extent"], h, w, msg), {"scenario": sc})
+
+            def grid(name, acc, rows, cols):
+                r_ = res.get(name)
+                if not isinstance(r_, list):
+                    fail(acc, "%s raised %s" % (name, r_))
+                    return
+                want = [len(rows), len(cols)]
+                if r_[0]["shape"] != want or r_[1]["shape"] != want:
+                    fail(acc, "%s has shape %s, the derived area selects %s" % (name, r_[0]["shape"], want))
+                    return
+                lo = np.asarray(r_[0]["data"], dtype=float).reshape(want)
+                la = np.asarray(r_[1]["data"], dtype=float).reshape(want)
+                for i, rr in enumerate(rows):
+                    for j, cc in enumerate(cols):
+                        if not sub.ll_close(float(lo[i, j]), float(la[i, j]), float(RLON[rr, cc]), float(RLAT[rr, cc]), float(cx[cc]), float(cy[rr])):
+                            fail(acc, "%s[%d][%d] = (%.12g, %.12g) but pixel (row %d, col %d) of the derived area has geodetic lon/lat (%.12g, %.12g)" % (
+                                name, i, j, lo[i, j], la[i, j], rr, cc, RLON[rr, cc], RLAT[rr, cc]))
+                            return
+            grid("ll_whole", "get_lonlats", list(range(h)), list(range(w)))
+            grid("ll_slice", "get_lonlats", list(range(h))[1:], list(range(w))[:-1])
+            grid("ll_dask", "get_lonlats_dask", list(range(h)), list(range(w)))
+            xy = res.get("xy")
+            if isinstance(xy, list):
+                g = sub.check_grid(xy[0], xy[1], list(range(h)), list(range(w)), "%s: get_proj_coords()" % what0, "C01.derived.get_proj_coords")
+                if g is not None:
+                    e = res["extent"]
+                    smp = self.samples(h, w)
+                    self.coq["coords_numpy"].append("((mk_area %s %s %s %s %d %d), %s, %s, [%s])" % (
+                        fhex(e[0]), fhex(e[1]), fhex(e[2]), fhex(e[3]), w, h, zlist(range(h)), zlist(range(w)),
+                        "; ".join("(%d, %d, %s, %s)" % (i, j, fhex(g[0][i, j]), fhex(g[1][i, j])) for i, j in smp)))
+            else:
+                fail("get_proj_coords", "get_proj_coords() raised %s" % xy)
+            for name, acc, (rr, cc) in (("lonlat_00", "get_lonlat", (0, 0)), ("lonlat_last", "get_lonlat", (h - 1, w - 1)),
+                                        ("colrow_last", "colrow2lonlat", (h - 1, w - 1))):
+                v = res.get(name)
+                if not isinstance(v, list):
+                    fail(acc, "%s raised %s" % (name, v))
+                elif not sub.ll_close(float(v[0]), float(v[1]), float(RLON[rr, cc]), float(RLAT[rr, cc]), float(cx[cc]), float(cy[rr])):
+                    fail(acc, "%s = (%.12g, %.12g) but pixel (row %d, col %d) of the derived area has geodetic lon/lat (%.12g, %.12g)" % (
+                        name, v[0], v[1], rr, cc, RLON[rr, cc], RLAT[rr, cc]))
+            # the parent still describes ITS grid after the caller overwrote what the derived object handed out
+            pa = res.get("parent_ll_after")
+            if isinstance(pa, list) and not dg:
+                po = self.o
+                pcx = np.array([float(po.X(c)) for c in range(spec["w"])])
+                pcy = np.array([float(po.Y(r)) for r in range(spec["h"])])
+                PX, PY = np.meshgrid(pcx, pcy)
+                PLON, PLAT = self.R.transform(PX, PY, direction=INV)
+                if pa[0]["shape"] != [spec["h"], spec["w"]]:
+                    self.fail("C01.derived.parent_after_overwrite", "%s: the parent's get_lonlats() now has shape %s" % (what0, pa[0]["shape"]), {"scenario": sc})
+                else:
+                    lo = np.asarray(pa[0]["data"], dtype=float).reshape(spec["h"], spec["w"])
+                    la = np.asarray(pa[1]["data"], dtype=float).reshape(spec["h"], spec["w"])
+                    bad = [(i, j) for i in range(spec["h"]) for j in range(spec["w"])
+                           if not self.ll_close(float(lo[i, j]), float(la[i, j]), float(PLON[i, j]), float(PLAT[i, j]), float(pcx[j]), float(pcy[i]))]
+                    if bad:
+                        i, j = bad[0]
+                        self.fail("C01.derived.parent_after_overwrite", "%s, then the caller overwrote the derived object's get_lonlats() result in place: the PARENT's "
+                                  "get_lonlats()[%d][%d] is (%.12g, %.12g), its pixel has (%.12g, %.12g)" % (what0, i, j, lo[i, j], la[i, j], PLON[i, j], PLAT[i, j]), {"scenario": sc})
+
+    @staticmethod
+    def sl_str(sl):
+        return ":".join("" if v is None else str(v) for v in sl)
 
     def joint(self, A):
         """Lazy dask results of this area and of a twin (same shape, same pixel size, other origin) evaluated in ONE
